@@ -9,7 +9,7 @@ CHECK = Check(
         # the REAL ow-sim binary (tag verif, built from the tree under test against the HDF5 stub) on generated graphs;
         # output datasets compared bit for bit with `owsim` executed by the compiled Lean driver (which also reports
         # whether `refSem` and the latest-writer schedule agree on that line)
-        Family("SIM", rtol=1e-9, atol_scale=1e-12, args=["n=150", "par=8"]),   # bit-exact kernels + the pow-using Gully pair (name-containing model names)
+        Family("SIM", rtol=1e-9, atol_scale=1e-12, args=["n=300", "par=8"]),   # bit-exact kernels + the pow-using Gully pair (name-containing model names)
         # hook traces of those executions (+ mutants + random walks) through the Go acceptor and through
         # OW.Sim.Writer.step in the Lean driver
         Family("SIMTRACE", rtol=None, args=["walks=150"]),
